@@ -28,7 +28,9 @@ NameFunction(e) == /\ \A r \in Revs(e) : r.known
 \* history GC: the victim is the oldest non-current revision the reconciler listed, more than limit+1 were listed, limit not 0 / nil
 IsGc(e) == e.ev = "call" /\ e.verb = "delete" /\ e.kind = "rev" /\ e.applied
 Listed(e) == Range(e.seen.listed)
-NonCur(e) == {x \in Listed(e) : x.d # e.seen.cur}
+\* (the candidates are the listed revisions the package controls: one that another owner controls is not the package's to
+\* delete - C02, fix c80b2fe - and so is not "the oldest" the package could have chosen either)
+NonCur(e) == {x \in Listed(e) : x.d # e.seen.cur /\ x.ctrl # "foreign"}
 GcVictimNotCurrent(e) == IsGc(e) => e.target # e.seen.cur
 GcOldest(e) == (IsGc(e) /\ e.target # e.seen.cur) =>
                  \E x \in NonCur(e) : x.d = e.target /\ x.num = Min({y.num : y \in NonCur(e)})
